@@ -363,7 +363,7 @@ def mkseq(f, n, ek='real'):
     j = _bound()
     try:
         v = f(Sym(j, 'int'))
-        body = ops.z3real(v) if ek == 'real' else (ops.char_code(v) if ek == 'char' else ops.z3int(v))
+        body = ops.z3real(v) if ek == 'real' else (ops.char_code(v) if ek == 'char' else (ops.z3bool(v) if ek == 'bool' else ops.z3int(v)))
     finally:
         _unbound()
     return SSeq(LAM(j, body), 0, ops.z3int(n), 'list', ek)
